@@ -7,6 +7,8 @@ import (
 	"runtime"
 	"sort"
 	"strconv"
+	"sync"
+	"sync/atomic"
 	_ "unsafe" // for linkname
 )
 
@@ -59,17 +61,49 @@ type parkedG struct {
 type simG struct {
 	id  int
 	seq int
+	pre uint64 // preemption points passed so far
+}
+
+// preemptOn is true only inside a bubble world with Config.PreemptEvery > 0.
+var preemptOn atomic.Bool
+
+// Preempt is a preemption point (function entry, statement touching a
+// package-level variable). Outside preemptive worlds it costs one atomic
+// load. Inside one, the goroutine parks at the points selected by a hash of
+// (world seed, goroutine id, how many points this goroutine has passed), on
+// average every PreemptEvery-th, and the scheduler decides who runs next.
+// The selection depends on nothing but the seed and the goroutine's own
+// progress, so it replays without being logged.
+func Preempt(site string) {
+	if !preemptOn.Load() {
+		return
+	}
+	s.mu.Lock()
+	if !gs.active || s.cfg.PreemptEvery <= 0 {
+		s.mu.Unlock()
+		return
+	}
+	sg := gs.me()
+	sg.pre++
+	x := s.cfg.Seed ^ uint64(sg.id)*0x9e3779b97f4a7c15 ^ sg.pre*0xbf58476d1ce4e5b9
+	if splitmix(&x)%uint64(s.cfg.PreemptEvery) != 0 {
+		s.mu.Unlock()
+		return
+	}
+	s.rec.Fired["preempt"]++
+	park(site, sg, nil)
 }
 
 type goState struct {
-	active bool
-	parked []*parkedG
-	nextID int
-	byGoid map[uint64]*simG
+	active  bool
+	parked  []*parkedG
+	nextID  int
+	byGoid  map[uint64]*simG
 	wake    chan struct{}
 	done    chan struct{}
 	fin     bool
 	retries int
+	once    map[*sync.Once]int // 1 = f is running in some goroutine, 2 = done
 }
 
 var gs goState
@@ -232,6 +266,46 @@ func RUnlock(m interface{ RUnlock() }) {
 	released(m)
 }
 
+// OnceDo replaces o.Do(f) for sync.Once. A goroutine parked inside f (at a
+// preemption point) would otherwise leave every other caller blocked on the
+// Once's internal mutex, which the bubble cannot see through; here the others
+// park as waiters of o and become eligible when f has returned.
+func OnceDo(site string, o *sync.Once, f func()) {
+	for {
+		s.mu.Lock()
+		if !gs.active {
+			s.mu.Unlock()
+			o.Do(f)
+			return
+		}
+		switch gs.once[o] {
+		case 0:
+			if gs.once == nil {
+				gs.once = map[*sync.Once]int{}
+			}
+			gs.once[o] = 1
+			s.mu.Unlock()
+			func() {
+				defer func() {
+					s.mu.Lock()
+					if gs.active {
+						gs.once[o] = 2
+					}
+					s.mu.Unlock()
+					released(o)
+				}()
+				o.Do(f)
+			}()
+			return
+		case 2:
+			s.mu.Unlock()
+			o.Do(f)
+			return
+		}
+		park(site, gs.me(), o)
+	}
+}
+
 func scheduler() {
 	for {
 		synctestWait()
@@ -327,12 +401,15 @@ func scheduler() {
 func RunWorld(f func()) (deadlock string) {
 	s.mu.Lock()
 	bubble := s.cfg.Bubble
+	pe := s.cfg.PreemptEvery
 	s.mu.Unlock()
 	if !bubble {
 		f()
 		return ""
 	}
+	preemptOn.Store(pe > 0)
 	defer func() {
+		preemptOn.Store(false)
 		s.mu.Lock()
 		gs.active = false
 		gs.parked = nil
